@@ -425,6 +425,18 @@ func AlphaFamilies(tier string) []AlphaSpec {
 		Free:  []string{"", "k", "ka", "kb", P(11) + "1", P(11) + "2"},
 		NVals: 2,
 	})
+	out = append(out, AlphaSpec{
+		Name: "DEEP3", // three stacked long paths, keys of very different lengths, leaf and inner children mixed
+		Free: []string{P(12) + "a" + Q(12) + "b" + P(11) + "1", P(12) + "a" + Q(12) + "b" + P(11) + "2", P(12) + "a" + Q(12) + "c", P(12) + "a" + Q(3), P(12) + "b", P(3), "x"},
+		Probes: []string{P(12) + "a" + Q(12) + "b", P(12) + "a" + Q(12), P(12) + "a" + Q(12) + "b" + P(11) + "3", P(12) + "a" + Q(11) + "x" + "b" + P(11) + "1"},
+	})
+	if tier == "thorough" {
+		out = append(out, AlphaSpec{
+			Name: "LONG12", // twelve keys mixing short keys, paths around the inline limit and branch bytes >= 0x80
+			Free: []string{"", "a", "ab", P(9) + "n", P(10) + "m", P(11) + "z", P(12) + "x", P(12) + "y", P(12) + "\x80", P(12) + "x" + Q(11) + "1", P(12) + "x" + Q(11) + "\xff", "\xff"},
+			Probes: []string{P(12), P(13), P(12) + "x" + Q(5)},
+		})
+	}
 	// fan-out windows
 	fans := []FanSpec{
 		{Name: "FAN0-8", Hold: 0, Present: 0, Absent: 8},
